@@ -45,7 +45,8 @@ def c03(c):
 
     # 1. spec -> code, exhaustive transition covers
     covers = [("MCVersionedTree_rot_q.cfg", 6, "all AVL shapes over 6 keys x every mutation and observer instance"),
-              ("MCVersionedTree_ver_q.cfg", 3, "version management over 3 keys, <= 2 versions, histories <= 7")]
+              ("MCVersionedTree_ver_q.cfg", 3, "version management over 3 keys, <= 2 versions, histories <= 7"),
+              ("MCVersionedTree_ver3_q.cfg", 2, "version management over 2 keys, <= 3 versions (middle versions deleted), histories <= 9")]
     if thorough:
         covers = [("MCVersionedTree_rot_t.cfg", 7, "all AVL shapes over 7 keys x every mutation and observer instance"),
                   ("MCVersionedTree_rotv_t.cfg", 3, "working tree + one saved version, 3 keys x 2 values, every observer instance on both"),
